@@ -5,11 +5,21 @@
    interval its ancestors' separators promise; each separator (i >= 1) equals
    the smallest key below its child; leaves hold at most max_leaf_size
    entries, interior nodes at most max_internal_size children, the root fewer
-   than twice that.  The leaf chain is the in-order leaf sequence of the
-   model by construction; that the implementation's next pointers realise it
-   is checked by the correspondence run (shape + chain after every history). *)
+   than twice that.
+   The pointer clause ("the leaf chain visits every entry exactly once in key
+   order and ends where the tree ends, every leaf reachable by descent is on
+   the chain and vice versa") is about Model/Chain.v: a heap holding every
+   leaf's `next` and every interior node's `firstbucket`, written by the
+   assignments the code performs at the sites where it performs them (leaf
+   split, node split, root split, first bucket, the two unlink sites of the
+   delete path with their status-2 bubbling, clear).  C03_chain_*: after every
+   insertion, deletion and clear, hence after every history, the heap realises
+   the in-order leaf sequence of the tree and every node's first leaf; a walk
+   from the root's firstbucket along next visits exactly the leaves reached by
+   descent, in order, and ends with NULL. *)
 From Coq Require Import ZArith List Bool.
 From BT Require Import Model.RTree Model.TreeSpec Model.TreeRun Proofs.TreeProofs.
+From BT Require Import Model.Persist Model.PersistSpec Model.Chain Model.ChainRun Proofs.ChainProofs.
 Import ListNotations.
 Open Scope Z_scope.
 
@@ -49,3 +59,54 @@ Example C03_example :
   wfb Z 2 2 (t_tree (fst (run false false 2 2 init
      [CSet 5 50; CSet 1 10; CSet 9 90; CSet 3 30; CSet 7 70; CSet 2 20; CSet 8 80; CDel 1; CDel 2]))) = true.
 Proof. vm_compute. reflexivity. Qed.
+
+(* ---------------- the pointer structure (Model/Chain.v) ---------------- *)
+Theorem C03_chain_set : forall (V : Type) (veq : V -> V -> bool) (vs : bool) (ml mi : nat),
+  (1 <= ml)%nat -> (2 <= mi)%nat ->
+  forall (fresh : nat) (t : tree V) (k : Z) (v : V) (iu : bool) (h : heap),
+  Inv V ml mi t -> ids_ok V fresh t -> chain_ok V h t ->
+  chain_ok V (pset V veq vs ml mi h fresh t k v iu) (s_tree (tset V veq vs ml mi fresh t k v iu)).
+Proof. exact ChainProofs.chain_set. Qed.
+Print Assumptions C03_chain_set.
+
+Theorem C03_chain_del : forall (V : Type) (ml mi : nat),
+  (1 <= ml)%nat -> (2 <= mi)%nat ->
+  forall (t : tree V) (k : Z) (r : dres V) (h : heap),
+  Inv V ml mi t -> NoDup (ids V t) -> chain_ok V h t -> tdel V t k = Some r ->
+  chain_ok V (pdel V h t k) (d_tree r).
+Proof. exact ChainProofs.chain_del. Qed.
+Print Assumptions C03_chain_del.
+
+Theorem C03_chain_clear : forall (V : Type) (ml mi : nat) (t : tree V) (h : heap),
+  Inv V ml mi t -> chain_ok V h t -> chain_ok V (pclear V h t) (fst (tclear V t)).
+Proof. exact ChainProofs.chain_clear. Qed.
+Print Assumptions C03_chain_clear.
+
+(* what chain_ok means for an observer, and for the persistence model: the
+   pointers are the successor / first-leaf functions Persist.getstate uses *)
+Theorem C03_chain_walk : forall (V : Type) (ml mi : nat),
+  (1 <= ml)%nat -> (2 <= mi)%nat ->
+  forall (t : tree V) (h : heap),
+  Inv V ml mi t -> NoDup (ids V t) -> chain_ok V h t ->
+  (forall x, In x (leaf_ids V t) -> nx h x = succ_of (leaf_ids V t) x) /\
+  fb h (tid V t) = first_leaf V t /\
+  walk_tree V h t = leaf_ids V t.
+Proof. exact ChainProofs.chain_is_getstate_view. Qed.
+Print Assumptions C03_chain_walk.
+
+(* every history of insertions, deletions and clear from the empty tree *)
+Theorem C03_chain_reachable : forall (vs : bool) (ml mi : nat),
+  (1 <= ml)%nat -> (2 <= mi)%nat ->
+  forall ps : list prim,
+  let s := prim_run vs ml mi pinit ps in
+  Inv Z ml mi (p_tree s) /\ ids_ok Z (p_fresh s) (p_tree s) /\ chain_ok Z (p_heap s) (p_tree s).
+Proof. exact ChainProofs.chain_reachable. Qed.
+Print Assumptions C03_chain_reachable.
+
+Example C03_chain_example :
+  let s := prim_run false 1 2 pinit
+             (map (fun k => PSet k k false) [5; 1; 9; 3; 7; 2; 8; 4; 6] ++ [PDel 1; PDel 2; PDel 9; PDel 5]) in
+  chain_ok_b Z (p_heap s) (p_tree s) = true /\
+  walk_tree Z (p_heap s) (p_tree s) = leaf_ids Z (p_tree s) /\
+  (3 <= depth Z (p_tree s))%nat.
+Proof. vm_compute. repeat split; repeat constructor. Qed.
